@@ -127,7 +127,7 @@ PROPS["C07"] = {
         "Model.Record mirrors gmtls/conn.go halfConn.encrypt/decrypt, writeRecordLocked, maxPayloadSizeForWrite, Write, readRecord, Read for version 0x0101; tie = recwrite (exact wire bytes incl. explicit IVs from Config.Rand and nonce = seq) and recread (delivered bytes + alert for bit flips in every record region, truncation, extension, swap, duplicate, drop, injection, cross-connection replay, header edits), hook gmtls.VerifEstablished",
     ],
     "assumptions": ["Authentic AEAD: anything that opens under (nonce, additional data) was sealed by the sender under exactly those (hypothesis of prefix_delivery)", "fewer than 2^64 records per direction (the code panics instead of wrapping)"],
-    "not_proved": ["decrypt_encrypt for the CBC+HMAC-SM3 suite as a theorem", "extractPadding (constant-time bit tricks) = its specification as a theorem (T1 of the design; compared for all pad lengths 0..255 by expad)", "prefix_delivery instantiated for MAC-then-encrypt CBC (the abstract theorem is stated for AEAD-shaped protection)"],
+    "not_proved": ["extractPadding (constant-time bit tricks) = its specification as a theorem (T1 of the design; compared for all pad lengths 0..255 by expad)", "prefix_delivery instantiated for MAC-then-encrypt CBC (the abstract theorem is stated for AEAD-shaped protection)"],
 }
 
 PROPS["C10"] = {
